@@ -482,6 +482,19 @@ def run(ctx):
                 else:
                     py = 'accept another-key'
                 items38.append((m, py))
+    # the same strings with a RIGHT checksum over a payload that is not a BIP38 payload: reserved flag bits set, wrong length, other prefix
+    for s38, pw38, sec38 in VEC38:
+        raw38 = b58dec_h(s38)[:-4]
+        edits = [raw38[:2] + bytes([raw38[2] | bit]) + raw38[3:] for bit in (0x01, 0x02, 0x08, 0x10)] + \
+                [raw38[:-1], raw38 + b'\x00', raw38[:1] + b'\x44' + raw38[2:], raw38[:2] + bytes([raw38[2] ^ 0x40]) + raw38[3:], raw38[:2] + bytes([raw38[2] & 0x3f]) + raw38[3:]]
+        for e_ in edits:
+            m_ = restamp(e_)
+            ctx.count('structural-mutant:bip38')
+            try:
+                got = Key(m_, password=pw38).private_hex
+            except Exception:
+                got = None
+            items38.append((m_, 'none' if got is None else ('accept ' + e_.hex() if got == sec38 else 'accept another-key')))
     cmp_b58check(items38, 'bip38')
     sweep_b58check(wifs[:nq[2]], 'wif', True, 0)
     sweep_b58check(xkeys[:nq[3]], 'xkey', T, 1500)
